@@ -52,6 +52,12 @@ impl<'a> ParseState<'a> {
             "peginator_verif: advance({length}) at byte {} is not on a UTF-8 character boundary",
             self.start_index
         );
+        #[cfg(peginator_verif)]
+        crate::verif::emit(|| crate::verif::VerifEvent::Advance {
+            from: self.start_index,
+            len: length,
+            checked: false,
+        });
         Self {
             start_index: self.start_index + length,
             // SAFETY:
@@ -71,6 +77,12 @@ impl<'a> ParseState<'a> {
             // This should be optimized out in most cases
             panic!("String length overrun in advance()")
         };
+        #[cfg(peginator_verif)]
+        crate::verif::emit(|| crate::verif::VerifEvent::Advance {
+            from: self.start_index,
+            len: length,
+            checked: true,
+        });
         Self {
             start_index: self.start_index + length,
             partial_string: &self.partial_string[length..],
@@ -96,6 +108,11 @@ impl<'a> ParseState<'a> {
     #[inline]
     pub fn report_error(self, specifics: ParseErrorSpecifics) -> ParseError {
         let position = self.start_index;
+        #[cfg(peginator_verif)]
+        crate::verif::emit(|| crate::verif::VerifEvent::Fail {
+            pos: position,
+            kind: format!("{specifics:?}"),
+        });
         self.record_error(ParseError {
             position,
             specifics,
